@@ -1,17 +1,20 @@
 (** C11 — model of the cache-key derivations and of the "look up, else call the
-    remote system, validate, store" logic of heimdall's caching mechanisms, as
-    the code is.
+    remote system, validate, store" logic of heimdall's caching mechanisms.  The record
+    [fixes] (below) selects between the code as it is ([fx_all6], /repo 0b950ef) and the code
+    before each committed repair.
 
     Modelled code
       endpoint/endpoint.go                                   Endpoint.Hash, CreateRequest (method default, auth, headers)
       endpoint/authstrategy/api_key.go, basic_auth.go        Hash, Apply
       mechanisms/subject/subject.go                          Subject.Hash (json.Marshal is an oracle: the JSON text is case data)
-      authenticators/oauth2_introspection_authenticator.go   calculateCacheKey, getSubjectInformation (hit returns before Validate)
+      authenticators/oauth2_introspection_authenticator.go   calculateCacheKey, getSubjectInformation (hit: Validate since deaddf0, [fx2])
       authenticators/generic_authenticator.go                calculateCacheKey, getSubjectInformation, createRequest
-      authorizers/remote_authorizer.go                       calculateCacheKey, Execute (hit skips verify), doAuthorize
+      authorizers/remote_authorizer.go                       calculateCacheKey, Execute (hit: verify since abe584c, [fx3]), doAuthorize
       contextualizers/generic_contextualizer.go              calculateCacheKey, Execute, createRequest
       oauth2/clientcredentials/clientcredentials.go          calculateCacheKey, Token
       finalizers/jwt_finalizer.go, jwt_signer.go             calculateCacheKey, jwtSigner.Hash, Execute
+      authenticators/jwt_authenticator.go                    calculateCacheKey, getKey, validateJWK (Model2.v; literal endpoint headers only)
+      httpcache/round_tripper.go                             cacheKey, RoundTrip (Model2.v; methods GET, HEAD, POST)
 
     Conventions
     * A cache key is [hex (H pre)] where [pre] is the byte string written into
@@ -460,7 +463,8 @@ Definition exec_fresh (w : world) (i : inst) (q : reqdata) : outcome * nat :=
 
 (* ------------------------------------------------------------------ keys *)
 
-(** candidate repairs of three findings (fixes/C11-F1.diff … F3.diff); [false] = the code of the tree as it is:
+(** five committed repairs; [false] = the code before the commit, [true] = since the commit
+    (F1 9b4883e, F2 deaddf0, F3 abe584c, F10 abc25e7, F6 0b950ef):
     [fx1] maps are hashed in the order of their keys, [fx2] a cached introspection response is validated
     under the assertions in force, [fx3] the remote authorizer verifies its expressions on a hit,
     [fx10] the generic authenticator asserts the session lifespan of a cached response (fixes/C11-F10.diff),
@@ -468,12 +472,12 @@ Definition exec_fresh (w : world) (i : inst) (q : reqdata) : outcome * nat :=
     and cookies with their values, the authenticator's also its payload template (fixes/C11-F6.diff) *)
 Record fixes := { fx1 : bool; fx2 : bool; fx3 : bool; fx10 : bool; fx6 : bool }.
 Definition fx_none : fixes := {| fx1 := false; fx2 := false; fx3 := false; fx10 := false; fx6 := false |}.
-(** the repairs committed so far (F1, F2, F3, F10) *)
+(** the tree before 0b950ef (F1, F2, F3, F10 repaired, F6 open) *)
 Definition fx_all : fixes := {| fx1 := true; fx2 := true; fx3 := true; fx10 := true; fx6 := false |}.
-(** … and with fixes/C11-F6.diff *)
+(** the tree as it is (/repo 0b950ef) *)
 Definition fx_all6 : fixes := {| fx1 := true; fx2 := true; fx3 := true; fx10 := true; fx6 := true |}.
-(** F1, F2, F3 repaired, F10 open *)
-Definition fx_now : fixes := {| fx1 := true; fx2 := true; fx3 := true; fx10 := false; fx6 := false |}.
+(** the tree before abc25e7 (F1, F2, F3 repaired, F10 and F6 open) *)
+Definition fx_pre10 : fixes := {| fx1 := true; fx2 := true; fx3 := true; fx10 := false; fx6 := false |}.
 
 Section Keys.
   Variable fx : fixes.
